@@ -6,9 +6,27 @@ ALL = ["C%02d" % i for i in range(1, 21)]
 
 # property -> (category, technique, level text, level note, design ref)
 CHECKS = {
+ "C01": ("exploration", "reference-model monitor (withheld-count formula) over generated + small-scope-exhaustive packetmap histories and over the real rtpDownTrack.Write",
+   "Every output of packetmap.Map (public API) and of the real forwarding path is compared with seqno minus the number of earlier withheld packets, with 'withheld' observed, over generated arrival histories (loss, duplicates, reordering, wrap, >66000-packet streams) and ALL histories up to a small depth over an 8-letter alphabet. Held on the executions observed.",
+   "Quantifier restricted to the 8192-packet window as the property states; exhaustive only for the stated small sub-space; direct-drive uses the verif shim (no logic) and a capturing write stream.", "5/C01"),
+ "C02": ("exploration", "input/output packet diff with pion's independent depacketisers at the down track's write stream",
+   "Every forwarded packet is diffed field by field against its source packet (length, timestamp, header, payload outside the picture-id field), markers only ever set on the last packet of a frame of the selected spatial layer, VP8 picture ids equal source id minus wholly withheld frames (7/15 bit, wrap). Held on the executions observed.",
+   "In-order arrival for the picture-id clause (the property's scope); SSRC/PT compared against the binding.", "5/C02"),
+ "C03": ("exploration", "log-against-log monitor: first transmissions vs responses to injected NACKs through the real gotNACK; Reverse/Map agreement on the public API",
+   "Responses to 7 kinds of NACK sets must be byte-identical to the first transmission under the same number or absent; numbers never sent are never answered; withheld packets never resent. Held on the executions observed; one open known finding (marker recomputed after a spatial switch).",
+   "The publisher cache is a real packetcache.Cache filled as the receive loop does; non-vacuity floors on answered NACKs.", "5/C03"),
+ "C04": ("exploration", "state-machine monitor over the sampled layer word before/after every Write, sequential and concurrent feedback",
+   "The property's switching rules are evaluated on every Write of generated VP8/VP9 streams interleaved with REMB/RR/stale/limit events through the real adjustLayer/updateRate; concurrent writer+feedback histories check that the selection never moves between Writes; loss ceiling bounds after any report sequence. Held on the executions observed.",
+   "limitSid is set through a 5-line shim copy of replaceTracks' setter; concurrency clause is schedule-dependent (what was observed is reported).", "5/C04"),
  "C05": ("exploration", "reference-model monitor over generated call histories + race detector on concurrent readers",
    "Runs the real packetcache.Cache under generated Store/Get/GetAt/Resize/ResizeCond histories (all seqno orders, sizes 1..1504, capacities 1..65535) with a reference model as oracle, then 1 writer + 1 resizer + 14 self-validating readers under -race. Held on the executions observed; not a proof.",
    "Trusts the Go race detector and the harness model; timestamp/marker words are only observable as part of the stored packet bytes.", "5/C05"),
+ "C08": ("exploration", "reference model of galene.md's login rules over descriptions parsed by the real loader + subprocess round trip through the real galenectl",
+   "Generated group descriptions (20 password encodings incl. malformed, roles/raw arrays, obsolete format, recording/token flags) x credentials (right, near-miss, unknown user) are judged by an independent model (own pbkdf2/bcrypt); records printed by the real galenectl binary must verify and reject near misses. Held on the executions observed.",
+   "'For no other password' is read modulo the declared hash function (HMAC zero padding, bcrypt 72-byte limit are the algorithm's verdict, counted not judged). The moderation-history clause is decided by the C11/C14 end-to-end monitors.", "5/C08"),
+ "C09": ("exploration", "oracle by construction: harness-issued stateful tokens and JWTs with exactly one known perturbation each",
+   "Tokens whose validity is known by construction (scope over path alphabets, time offsets >= 120 s, HS256/384/512, ES256, RS256, kid/no kid, alg none / confusion, audience host and path variants) through token.Parse().Check and Description.GetPermission. Held on the executions observed.",
+   "Time offsets never closer than 120 s to a boundary; harness signs with its own crypto code.", "5/C09"),
 }
 
 NOT_YET = "check not built yet in this session (work in progress, see DESIGN.md section 9)"
